@@ -66,4 +66,10 @@ claim('C13', 'model_checking', 'tlc-emit-replay', 'TLA+ spec NixDims + TLC (BFS 
       'TicksSorted/IntervalPositive/UnitsSI/AliasAlone/AliasMirrors/DeleteAllLeavesNone/AppendFrameProp/RejectFrame hold on the design; every '
       'transition incl. every illegal value at every entry point is executed and all getters of all descriptors plus the array side of the alias '
       'mirror are compared, also after reopen.', 'Trusted: TLC, harness/h_dims.cpp. Two good + the bad values per field; <=3 descriptors; depth <=5.', 'DESIGN.md section 5 (C13)')
+claim('C14', 'model_checking', 'tlc-emit-replay', 'TLA+ spec NixProp + TLC (BFS) + per-transition replay per value type and creation overload',
+      'ReadsLastAssigned/CountFollows/OthersKeep/TypeStable/RejectFrame hold on the design; every transition is executed on a real Property with '
+      'stretched value vectors of extreme values and compared in the session and after reopen.', 'Trusted: TLC, harness/h_prop.cpp. Value dictionaries, lengths {0,1,2,3,7,8,9,64}; depth 2 (quick) / 3.', 'DESIGN.md section 5 (C14)')
+claim('C15', 'model_checking', 'tlc-emit-replay', 'TLA+ spec NixFrame + TLC (BFS) + per-transition replay with every cell read through all access paths',
+      'WriteFrame (last write wins per cell across the three write paths), ResizeKeeps, RejectFrame hold on the design; every transition is executed and '
+      'schema and every cell are read back through readRow/readCell/readCells/readColumn.', 'Trusted: TLC, harness/h_frame.cpp. 2-3 model columns (+ unwritten extras up to 8), <=3 rows, depth 5; types rotate by seed.', 'DESIGN.md section 5 (C15)')
 ENGINES[0]['serves_properties'] = sorted(CLAIMED)
